@@ -113,6 +113,26 @@ def own_walk(st):
     yield from ast.walk(st)
 
 
+def _has_own_break(loop):
+    """Does the loop body contain a ``break`` that leaves THIS loop?"""
+    def walk(stmts):
+        for s in stmts:
+            if isinstance(s, ast.Break):
+                return True
+            if isinstance(s, (ast.For, ast.While)):
+                if walk(s.orelse):
+                    return True
+                continue
+            for name in ('body', 'orelse', 'finalbody'):
+                if walk(getattr(s, name, []) or []):
+                    return True
+            for h in getattr(s, 'handlers', []) or []:
+                if walk(h.body):
+                    return True
+        return False
+    return walk(loop.body)
+
+
 def fall_guards(st):
     """Facts that hold when control falls out of the bottom of the ``if``
     statement ``st`` (as far as they form a conjunction): for the chain
@@ -181,6 +201,20 @@ def guards_of(fn_node, target):
                     for prev in block[:idx]:
                         if isinstance(prev, ast.If):
                             guards.extend(reversed(fall_guards(prev)))
+                        if isinstance(prev, ast.While) and not prev.orelse \
+                                and not _has_own_break(prev):
+                            # left through its test: the test is false now,
+                            # provided nothing after the loop re-binds a name
+                            # of the test before the target
+                            tn = {n.id for n in ast.walk(prev.test)
+                                  if isinstance(n, ast.Name)}
+                            j0 = block.index(prev)
+                            later = {n.id for st2 in block[j0 + 1:idx]
+                                     for n in ast.walk(st2)
+                                     if isinstance(n, ast.Name) and
+                                     isinstance(n.ctx, ast.Store)}
+                            if not (tn & later):
+                                guards.append((prev.test, False))
                         if isinstance(prev, ast.Assert):
                             guards.append((prev.test, True))
                     if isinstance(par, ast.If):
@@ -419,3 +453,79 @@ def subscript_key(target):
         if isinstance(s, ast.Constant) and isinstance(s.value, str):
             return target.value.id, s.value
     return None
+
+
+# ---------------------------------------------------------------------------
+# Propositional entailment over recognised atoms.
+def _formula(node, atomise, atoms):
+    """-> nested tuple formula ('not', f) / ('and', [..]) / ('or', [..]) /
+    ('atom', key) / ('const', bool)."""
+    if isinstance(node, ast.UnaryOp) and isinstance(node.op, ast.Not):
+        return ('not', _formula(node.operand, atomise, atoms))
+    if isinstance(node, ast.BoolOp):
+        return ('and' if isinstance(node.op, ast.And) else 'or',
+                [_formula(v, atomise, atoms) for v in node.values])
+    if isinstance(node, ast.Constant) and isinstance(node.value, bool):
+        return ('const', node.value)
+    if isinstance(node, ast.Compare) and len(node.ops) > 1:
+        # a < b < c  ==  a < b and b < c
+        parts = []
+        ops = [node.left] + list(node.comparators)
+        for i, op in enumerate(node.ops):
+            c = ast.Compare(left=ops[i], ops=[op], comparators=[ops[i + 1]])
+            parts.append(_formula(c, atomise, atoms))
+        return ('and', parts)
+    a = atomise(node)
+    if a is None:
+        # a comparison and its negation share one free atom
+        key, pos = ast.dump(node), True
+        if isinstance(node, ast.Compare) and len(node.ops) == 1 and \
+                type(node.ops[0]) in _NEG:
+            neg = ast.Compare(left=node.left,
+                              ops=[_NEG[type(node.ops[0])]()],
+                              comparators=node.comparators)
+            k2 = ast.dump(neg)
+            if k2 in atoms:
+                key, pos = k2, False
+    else:
+        key, pos = a
+    atoms.add(key)
+    return ('atom', key) if pos else ('not', ('atom', key))
+
+
+def _feval(f, asg):
+    k = f[0]
+    if k == 'atom':
+        return asg[f[1]]
+    if k == 'const':
+        return f[1]
+    if k == 'not':
+        return not _feval(f[1], asg)
+    if k == 'and':
+        return all(_feval(x, asg) for x in f[1])
+    return any(_feval(x, asg) for x in f[1])
+
+
+def entails(guards, atomise, goal, max_atoms=12):
+    """Do the guards (list of (test, polarity)) imply ``goal`` (a function of
+    the truth assignment dict of the atoms)?  ``atomise(node)`` maps a leaf
+    test to (atom key, positive?) or None (a free atom of its own).  Returns
+    True / False, or None when there are too many atoms."""
+    import itertools
+    atoms = set()
+    fs = []
+    for t, pol in guards:
+        f = _formula(t, atomise, atoms)
+        fs.append(f if pol else ('not', f))
+    atoms = sorted(atoms, key=repr)
+    if len(atoms) > max_atoms:
+        return None
+    for vals in itertools.product((False, True), repeat=len(atoms)):
+        asg = dict(zip(atoms, vals))
+        if all(_feval(f, asg) for f in fs):
+            try:
+                if not goal(asg):
+                    return False
+            except KeyError:
+                return False        # the goal's atoms do not occur at all
+    return True
